@@ -207,6 +207,35 @@ Definition reapply (st : store) (e : event) : store * N :=
 
 Definition run (st : store) (h : list event) : store := fold_left (fun s e => fst (apply s e)) h st.
 
+(* the shape before 001f02315 (F-C03-2), whatever the flag says: the result takes the activity VALUE
+   of the changes row, which for an update that does not assign it is the one of the object handed
+   to ICUD.Update (witness of F-C03-2) *)
+Definition build_update_leak (o : rec) (u : update) : option rec :=
+  match build_update o u with
+  | Some r => Some (mkRec (r_id r) (r_qname r) (r_parent r) (r_container r) (u_active u) (r_fields r))
+  | None => None
+  end.
+
+Fixpoint update_items_leak (origin : update -> option rec) (us : list update) : option (list item) :=
+  match us with
+  | [] => Some []
+  | u :: r =>
+      match origin u with
+      | None => None
+      | Some o => match build_update_leak o u with
+                  | None => None
+                  | Some res => option_map (cons (r_id res, res, false)) (update_items_leak origin r)
+                  end
+      end
+  end.
+
+Definition apply_leak (st : store) (e : event) : store * N :=
+  match option_map (app (create_items (e_creates e))) (update_items_leak (eff_origin st (e_ws e)) (e_updates e)) with
+  | None => (st, 1)
+  | Some items => put_batch0 st (e_ws e) items
+  end.
+Definition run_leak (st : store) (h : list event) : store := fold_left (fun s e => fst (apply_leak s e)) h st.
+
 (* the same with the old applyRecs, whatever the flag says (witness of F-C03-1) *)
 Definition apply_old (st : store) (e : event) : store * N :=
   match option_map (app (create_items (e_creates e))) (update_items (eff_origin_old st (e_ws e)) (e_updates e)) with
